@@ -66,12 +66,20 @@ func vfSameContent(a, b []vfSeen) bool {
 	if len(a) != len(b) {
 		return false
 	}
+	// branch-free: payloads are symbolic, the comparison is one term
+	var eqs []bool
 	for i := range a {
-		if a[i] != b[i] {
-			return false
-		}
+		eqs = append(eqs, a[i].id == b[i].id, a[i].payload == b[i].payload)
 	}
-	return true
+	return vfAll(eqs...)
+}
+
+func vfHasDoc(list []vfSeen, d vfSeen) bool {
+	var alts []bool
+	for _, x := range list {
+		alts = append(alts, vfAll(x.id == d.id, x.payload == d.payload))
+	}
+	return vfAny(alts...)
 }
 
 // crashAt reopens the image and demands the content of some state k with
@@ -90,43 +98,38 @@ func (wd *vfWorld) crashAt(img *vfDir, when string) {
 		got = vfSortedContent(r)
 		if wd.setMode {
 			for _, a := range wd.ackedDocs {
-				found := false
-				for _, g := range got {
-					if g == a {
-						found = true
-					}
-				}
-				vfAssert(found, when+": reopening yields a state that contains every acknowledged batch")
+				vfAssert(vfHasDoc(got, a), when+": reopening yields a state that contains every acknowledged batch")
 			}
 			for _, g := range got {
-				known := false
-				for _, a := range wd.issuedDocs {
-					if g == a {
-						known = true
-					}
-				}
-				vfAssert(known, when+": the reopened state holds only documents some batch wrote")
+				vfAssert(vfHasDoc(wd.issuedDocs, g), when+": the reopened state holds only documents some batch wrote")
 			}
 			_ = r.Close()
 			return
 		}
-		ok := false
+		var oks []bool
 		for k := wd.acked; k <= wd.issued && k < len(wd.states); k++ {
-			if vfSameContent(got, wd.states[k]) {
-				ok = true
-			}
+			oks = append(oks, vfSameContent(got, wd.states[k]))
 		}
+		ok := vfAny(oks...)
 		vfAssert(ok, when+": reopening yields a state that contains every acknowledged batch (and is a prefix of the history)")
 		_ = r.Close()
 	})
 }
 
 func (wd *vfWorld) install() {
+	wd.dir.seams = true
 	wd.dir.afterOp = func(op, kind string, id uint64) {
+		if op == "persist" && kind == ItemKindSegment {
+			// a segment item no snapshot names yet: the image reopens exactly as the previous one did
+			return
+		}
 		wd.crashAt(wd.cloneDir("", 0), "crash after "+op+" of a "+kind+" item")
 	}
 	wd.dir.onTorn = func(kind string, id uint64, data []byte) {
 		// the item in flight exists under its final name with a prefix of its bytes
+		if kind == ItemKindSegment {
+			return // not named by any snapshot yet (see afterOp)
+		}
 		wd.tornCk++
 		for _, n := range []int{0, len(data) - 1} {
 			if n < 0 {
@@ -231,6 +234,9 @@ func vfScript(sc int) []vfStep {
 		return []vfStep{{op: 2, id: 1, payload: p(), payload2: p()}, {op: 1, id: 1}, {op: 1, id: 2}}
 	case 7:
 		return []vfStep{{op: 2, id: 1, payload: p(), payload2: p()}, {op: 1, id: 2}, {op: 0, id: 1, payload: p()}}
+	case 9:
+		// two segments in quick succession (in-memory merge by the persister), then an overwrite of the first
+		return []vfStep{{op: 0, id: 1, payload: p()}, {op: 0, id: 2, payload: p()}, {op: 0, id: 1, payload: p()}}
 	case 8:
 		// two-document segment; delete one; then delete the other and add a third in one batch
 		return []vfStep{{op: 2, id: 1, payload: p(), payload2: p()}, {op: 1, id: 1}, {op: 3, id: 2, payload: p()}}
@@ -241,14 +247,15 @@ func vfScript(sc int) []vfStep {
 // C02: safe mode. Every Batch that returns nil is durable at every later
 // directory-operation boundary and torn state, up to and including Close.
 //
-// vf:harness property=C02 cases=sc:0..3 cases.thorough=sc:0..5 sched=1 schedbudget=2 schedbudget.thorough=4 preempt=0 preempt.thorough=1 goinline=1 chanslack=8 deadlock=violation clock=zero maxpaths=200000 replay=model-only diff=off
+// vf:harness property=C02 cases=sc:0..3;order:0..1 cases.thorough=sc:0..5;order:0..2 sched=1 schedbudget=2 schedbudget.thorough=4 preempt=0 preempt.thorough=1 goinline=1 chanslack=8 deadlock=violation clock=zero maxpaths=200000 replay=model-only diff=off
 // vf:replace hash/crc32.Update vfChecksumUpdate
 // vf:replace io.CopyN vfCopyN
 // vf:replace (*github.com/RoaringBitmap/roaring.Bitmap).ReadFrom vfRoaringReadFrom
 // vf:replace (*github.com/RoaringBitmap/roaring.Bitmap).ToBytes vfRoaringToBytes
-// vf:bounds scripted histories of 1..3 single-operation batches (update, overwrite, delete-to-empty, second id, re-insert) with arbitrary payload bytes on a fresh model directory; the real OpenWriter/Batch/introducerLoop/persisterLoop/mergerLoop/Close as cooperative goroutines; schedule choices: the first schedbudget blocking points with more than one runnable goroutine fork over all candidates (lowest goroutine id afterwards), plus preempt extra switches before synchronisation operations; crash image taken after every directory Persist/Remove and, for each item in flight, with the empty and the all-but-one-byte prefix under its final name
-// vf:assume sequentially consistent, non-preemptive goroutines (the Go memory model is not modelled); model directory whose Persist is atomic-or-prefix as directory_fs.go writes items under their final name; model segment plugin; CRC-32 replaced by a rolling checksum, roaring's unsafe-based (de)serialisation by the model codec; time.After fires immediately, elapsed times (statistics only) read as zero; which torn prefixes are distinguishable is C03's subject (any prefix is rejected there)
-func VF_C02_AckedBatchIsDurable(sc int) {
+// vf:bounds default schedule: lowest goroutine id first or longest-waiting first (FIFO), thorough also highest id first; scripted histories of 1..3 single-operation batches (update, overwrite, delete-to-empty, second id, re-insert) with arbitrary payload bytes on a fresh model directory; the real OpenWriter/Batch/introducerLoop/persisterLoop/mergerLoop/Close as cooperative goroutines; schedule choices: the first schedbudget blocking points with more than one runnable goroutine fork over all candidates (lowest goroutine id afterwards), plus preempt extra switches before synchronisation operations; crash image taken after every snapshot Persist and every Remove (a freshly written segment item is not yet named by any snapshot, so the image after it reopens like the one before) and, for each snapshot item in flight, with the empty and the all-but-one-byte prefix under its final name
+// vf:assume sequentially consistent goroutines that switch at blocking operations and at the I/O seams (directory Persist/Remove, plugin Merge), plus the stated departures (the Go memory model is not modelled); model directory whose Persist is atomic-or-prefix as directory_fs.go writes items under their final name; model segment plugin; CRC-32 replaced by a rolling checksum, roaring's unsafe-based (de)serialisation by the model codec; time.After fires immediately, elapsed times (statistics only) read as zero; which torn prefixes are distinguishable is C03's subject (any prefix is rejected there)
+func VF_C02_AckedBatchIsDurable(sc int, order int) {
+	vfSchedOrder(order)
 	script := vfScript(sc)
 	wd := &vfWorld{dir: vfNewDir(), states: [][]vfSeen{nil}}
 	wd.install()
@@ -282,14 +289,15 @@ func VF_C02_AckedBatchIsDurable(sc int) {
 // analysis worker and the three loops, a batch whose call has returned nil is in
 // every later crash image.
 //
-// vf:harness property=C02 cases=nw:2 sched=1 schedbudget=2 schedbudget.thorough=3 preempt=0 preempt.thorough=1 goinline=1 chanslack=8 deadlock=violation clock=zero maxpaths=400000 replay=model-only diff=off
+// vf:harness property=C02 cases=nw:2;order:0..1 cases.thorough=nw:2;order:0..2 sched=1 schedbudget=2 schedbudget.thorough=3 preempt=0 preempt.thorough=1 goinline=1 chanslack=8 deadlock=violation clock=zero maxpaths=400000 replay=model-only diff=off
 // vf:replace hash/crc32.Update vfChecksumUpdate
 // vf:replace io.CopyN vfCopyN
 // vf:replace (*github.com/RoaringBitmap/roaring.Bitmap).ReadFrom vfRoaringReadFrom
 // vf:replace (*github.com/RoaringBitmap/roaring.Bitmap).ToBytes vfRoaringToBytes
-// vf:bounds two caller goroutines, one single-document update each (distinct ids, arbitrary payloads), fresh model directory; schedule choices and crash images as in VF_C02_AckedBatchIsDurable
+// vf:bounds default schedule: lowest goroutine id first or longest-waiting first (FIFO), thorough also highest id first; two caller goroutines, one single-document update each (distinct ids, arbitrary payloads), fresh model directory; schedule choices and crash images as in VF_C02_AckedBatchIsDurable
 // vf:assume as VF_C02_AckedBatchIsDurable
-func VF_C02_ConcurrentBatchesDurable(nw int) {
+func VF_C02_ConcurrentBatchesDurable(nw int, order int) {
+	vfSchedOrder(order)
 	wd := &vfWorld{dir: vfNewDir(), states: [][]vfSeen{nil}, setMode: true}
 	wd.install()
 	w, err := OpenWriter(vfLiveConfig(wd.dir, false))
@@ -332,14 +340,15 @@ func VF_C02_ConcurrentBatchesDurable(nw int) {
 // never a mixture, and to one that contains every batch whose
 // persisted-callback has reported success.
 //
-// vf:harness property=C03 cases=sc:8 cases.thorough=sc:4..8 sched=1 schedbudget=2 schedbudget.thorough=3 preempt=0 preempt.thorough=1 schedtotal=2 schedtotal.thorough=3 goinline=1 chanslack=8 deadlock=violation clock=zero maxpaths=400000 replay=model-only diff=off
+// vf:harness property=C03 cases=sc:8..9;order:0..1;pace:0,21 cases.thorough=sc:4..9;order:0..2;pace:0,4,13,21,26 sched=1 schedbudget=1 schedbudget.thorough=2 preempt=0 preempt.thorough=1 schedtotal=1 schedtotal.thorough=2 goinline=1 chanslack=8 deadlock=violation clock=zero maxpaths=400000 replay=model-only diff=off
 // vf:replace hash/crc32.Update vfChecksumUpdate
 // vf:replace io.CopyN vfCopyN
 // vf:replace (*github.com/RoaringBitmap/roaring.Bitmap).ReadFrom vfRoaringReadFrom
 // vf:replace (*github.com/RoaringBitmap/roaring.Bitmap).ToBytes vfRoaringToBytes
-// vf:bounds scripted histories of three batches (two ids; a two-document segment whose documents are deleted one batch at a time; delete then re-insert) with arbitrary payloads, unsafe batch mode, fresh model directory; schedule and crash-image bounds as VF_C02_AckedBatchIsDurable
+// vf:bounds default schedule: lowest goroutine id first or longest-waiting first (FIFO), thorough also highest id first; scripted histories of three batches (two ids; a two-document segment whose documents are deleted one batch at a time; delete then re-insert) with arbitrary payloads, unsafe batch mode, fresh model directory; caller pacing between its operations from a base-3 code (at once / one scheduling point / after the background work settled); schedule and crash-image bounds as VF_C02_AckedBatchIsDurable
 // vf:assume as VF_C02_AckedBatchIsDurable
-func VF_C03_LiveCrashImagesArePrefixes(sc int) {
+func VF_C03_LiveCrashImagesArePrefixes(sc int, order int, pace int) {
+	vfSchedOrder(order)
 	script := vfScript(sc)
 	wd := &vfWorld{dir: vfNewDir(), states: [][]vfSeen{nil}}
 	wd.install()
@@ -360,8 +369,14 @@ func VF_C03_LiveCrashImagesArePrefixes(sc int) {
 		vfAssert(w.Batch(b) == nil, "Batch succeeds without faults")
 		r, rerr := w.Reader()
 		vfAssert(rerr == nil && r != nil, "a reader can be obtained")
-		vfAssert(vfSameContent(vfSortedContent(r), wd.states[wd.issued]), "a reader obtained after Batch returned reflects the batch")
+		vfAtomic(func() {
+			// the observation itself is one step: enumerating the reader must not pace the caller
+			vfAssert(vfSameContent(vfSortedContent(r), wd.states[wd.issued]), "a reader obtained after Batch returned reflects the batch")
+		})
 		_ = r.Close()
+		// the caller's pacing before its next operation: at once, one scheduling point, or after the background settled
+		vfPace(pace % 3)
+		pace /= 3
 	}
 	vfAssert(w.Close() == nil, "Close succeeds")
 	wd.crashAt(wd.cloneDir("", 0), "reopen after Close")
